@@ -7,7 +7,8 @@ Open Scope Z_scope.
 
 Inductive prc_step :=
 | PsBlock (r : Z) (micros : list pr_micro) (adds dels nodes : list pr_hash)
-| PsPrune (readable : list bool).
+| PsPrune (readable : list bool)      (* one flag per block of the finalized chain, oldest first *)
+| PsRollback (r0 : Z).
 
 Record prc_case := { prc_start : Z; prc_count : Z; prc_steps : list prc_step }.
 
@@ -24,7 +25,8 @@ Fixpoint prc_go (count : Z) (s : pr_state) (steps : list prc_step) : bool :=
       (* the calls are meaningful for the live set, which ends as the state's node set *)
       pr_micros_ok prev micros && prc_seteq (pr_live_run prev micros) nodes &&
       (* the hypotheses of the safety theorem *)
-      (ps_lfb s <? r) && forallb (fun h => Z.eqb (fst h) r) adds &&
+      (ps_lfb s <? r) && forallb (fun rd => (fst rd <=? ps_lfb s) || (r <=? fst rd)) (ps_dead s) &&
+      forallb (fun h => Z.eqb (fst h) r) adds &&
       forallb (fun h => pr_mem h prev || pr_mem h adds) nodes &&
       pr_disjoint dels nodes && forallb (fun h => fst h <=? r) dels &&
       prc_go count (pr_finalize s r adds dels nodes) tl
@@ -32,6 +34,8 @@ Fixpoint prc_go (count : Z) (s : pr_state) (steps : list prc_step) : bool :=
       let s' := pr_prune s count in
       list_eqb Bool.eqb (map (pr_readable s') (rev (ps_blocks s'))) readable &&
       prc_go count s' tl
+  | PsRollback r0 :: tl =>
+      pr_op_ok s (OpRollback r0) && prc_go count (pr_rollback s r0) tl
   end.
 
 Definition prc_check (c : prc_case) : bool :=
